@@ -110,7 +110,9 @@ def one_entry(run, f):
             c16.trait_method(run, f, d, fn, fn["impl_trait"], f.ty(fn["impl_self"]))
     # the detection block is in ask
     det = deadlock.get(f)
-    run.require(det.root == A + "ask", "O14.2", "detection-in-ask", "the wait-for check lives in %s" % det.root, "the wait-for check is part of ActorRef::ask")
+    host_root = (det.host.root or det.host.defn) if det.host is not None else None
+    run.require(host_root == A + "ask", "O14.2", "detection-in-ask", "the wait-for check lives in %s and is not (called once from) the body of ActorRef::ask that builds the envelope" % det.root,
+                "the wait-for check is part of ActorRef::ask" + (" (through the helper %s, called once)" % det.body.defn if det.is_helper else ""))
 
 
 def check_then_insert(run, f, det):
@@ -156,14 +158,16 @@ def check_then_insert(run, f, det):
                 "insert(caller.id, callee identity)", loc=det.loc(ins))
     # O14.4: before the send
     sp = sendpaths.get(f)
-    sends = [s.bb for s, m in sp.mailbox_ops if s.body.name == b.name and m == "send"]
+    hostb = det.host if det.host is not None else b
+    hcfg = det.host_cfg if det.host is not None else cfg
+    sends = [s.bb for s, m in sp.mailbox_ops if s.body.name == hostb.name and m == "send"]
     some_arm = _tracked_arm(det)
     if run.require(len(sends) == 1 and some_arm is not None, "O14.4", "send-and-tracked-arm", "cannot find the mailbox send / the tracked arm in ask", "found"):
-        r = cfg.reachable_from(some_arm, avoid={ins})
+        r = hcfg.reachable_from(some_arm, avoid={det.host_call if det.is_helper else ins})
         # the decision point "is there a task-local identity" must itself precede the send on every path
         run.require(sends[0] not in r and _lookup_dominates(det, sends[0]), "O14.4", "edge-recorded-before-send",
                     "the message can be sent (and the asker can block in a full mailbox) before the edge has been checked and recorded: the wait-for check does not precede the mailbox send on every path",
-                    "the task-local lookup dominates the send and, on the tracked arm, every path to the send passes the insert", loc=det.loc(sends[0]))
+                    "the task-local lookup dominates the send and, on the tracked arm, every path to the send passes the insert", loc=loc_of(hostb, sends[0]))
         run.require(cfg.dominates(hp, ins), "O14.4", "check-before-insert", "the edge is inserted without the cycle check", "has_path dominates the insert")
 
 
@@ -173,11 +177,19 @@ def _strip(t):
 
 def _lookup_dominates(det, send_bb):
     """The task-local lookup (try_with) that decides whether the ask is tracked dominates the send."""
-    for k in live_calls(det.body):
+    hostb = det.host if det.host is not None else det.body
+    hcfg = det.host_cfg if det.host is not None else det.cfg
+    for k in live_calls(hostb):
         fn = fn_of(k)
         if fn.get("name") == "try_with" and "LocalKey" in (fn.get("def") or ""):
-            if det.cfg.dominates(k.idx, send_bb):
+            if hcfg.dominates(k.idx, send_bb):
                 return True
+    if det.is_helper:
+        # the lookup may live in the helper: then the helper call itself must dominate the send
+        for k in live_calls(det.body):
+            fn = fn_of(k)
+            if fn.get("name") == "try_with" and "LocalKey" in (fn.get("def") or ""):
+                return hcfg.dominates(det.host_call, send_bb)
     return False
 
 
@@ -185,18 +197,29 @@ def _tracked_arm(det):
     """Entry of the arm where the task-local identity was available (Some/Ok)."""
     b, cfg, tr = det.body, det.cfg, det.tr
     sp = sendpaths.get(det.f)
-    for kind, subj, arm, sbb in sp.guards(b, det.acquire):
+    anchor = det.acquire
+    if det.is_helper:
+        # is the lookup in the helper? then fall through to the same-body search below
+        in_helper = any(fn_of(k).get("name") == "try_with" for k in live_calls(b))
+        if not in_helper:
+            b, cfg, tr, anchor = det.host, det.host_cfg, det.host_tr, det.host_call
+    for kind, subj, arm, sbb in sp.guards(b, anchor):
         s = strip_wrappers(subj)
-        if kind == "discr" and arm in ("Some", "Ok") and _is_task_local(det, s):
+        if kind == "discr" and arm in ("Some", "Ok") and _is_task_local_in(tr, s):
             t = b.blocks[sbb].term
             for v, tgt in t["arms"] + [["x", t["otherwise"]]]:
-                if tgt == det.acquire or cfg.dominates(tgt, det.acquire):
+                if tgt == anchor or cfg.dominates(tgt, anchor):
+                    if det.is_helper and b is det.body:
+                        return det.host_call      # whole helper call is conditional inside the helper; host side: the call block
                     return tgt
     return None
 
 
 def _is_task_local(det, t):
-    tr = det.tr
+    return _is_task_local_in(det.tr, t)
+
+
+def _is_task_local_in(tr, t):
     guard = 0
     while t[0] == "call" and guard < 4:
         fn = tr.call_term(t[1]).get("fn") or {}
@@ -210,13 +233,41 @@ def _is_task_local(det, t):
     return False
 
 
+def _helper_param_roles(det):
+    """For a helper: which parameter carries the caller identity (from the task-local) and which
+    the callee identity (self.identity()), judged from the host's call arguments."""
+    roles = {}
+    htr = det.host_tr
+    args = [htr.norm(a) for a in htr.call_args(det.host_call)]
+    for i, a in enumerate(args):
+        t = strip_wrappers(a)
+        if t[0] == "field" and t[2][0] == "downcast" and t[2][1] in ("Some", "Ok") and _is_task_local_in(htr, strip_wrappers(t[2][2])):
+            roles["caller"] = ("param", i + 1)
+        elif t[0] == "call" and t[2] == "actor_ref::ActorRef::<T>::identity":
+            who = strip_refs(htr.norm(htr.call_args(t[1])[0]))
+            if who[0] in ("upvar", "param"):
+                roles["callee"] = ("param", i + 1)
+    return roles
+
+
 def _ids(det):
-    """(caller id term, callee id term) as used in ask."""
+    """(caller id term, callee id term) as used in the body that holds the detection block."""
     tr = det.tr
+    id_idx0 = 0
+    a0 = det.f.adts.get("Identity")
+    if a0:
+        id_idx0 = [fl["name"] for fl in a0["variants"][0]["fields"]].index("id")
+    if det.is_helper:
+        roles = _helper_param_roles(det)
+        has_lookup = any(fn_of(k).get("name") == "try_with" for k in live_calls(det.body))
+        if "callee" in roles and ("caller" in roles or has_lookup):
+            callee_t = roles["callee"]
+            if "caller" in roles:
+                return (("field", id_idx0, roles["caller"]), ("field", id_idx0, callee_t))
+            # caller looked up inside the helper: fall through with the callee parameter
+            det._callee_override = callee_t
     callee_ident = _callee_identity(det)
     caller = None
-    for l, ds in tr.defs.items():
-        pass
     # caller identity: payload of the task-local lookup
     for blk in det.body.blocks:
         for st in blk.stmts:
@@ -233,6 +284,12 @@ def _ids(det):
 
 def _callee_identity(det):
     tr = det.tr
+    if det.is_helper:
+        ov = getattr(det, "_callee_override", None)
+        if ov is not None:
+            return ov
+        roles = _helper_param_roles(det)
+        return roles.get("callee")
     for k in live_calls(det.body):
         if callee(k.term) == "actor_ref::ActorRef::<T>::identity" and (k.idx in det.region or det.cfg.dominates(k.idx, det.acquire)):
             who = strip_refs(tr.norm(tr.call_args(k.idx)[0]))
